@@ -5,7 +5,8 @@ pid = sys.argv[1]
 wt = sys.argv[2] if len(sys.argv) > 2 else pid
 wave2 = len(sys.argv) > 3
 wave3 = len(sys.argv) > 3 and sys.argv[3] == 'w3'
-wave4 = len(sys.argv) > 3 and sys.argv[3] in ('w4', 'w5', 'w6', 'w7', 'w8', 'w9', 'w10')
+wave4 = len(sys.argv) > 3 and sys.argv[3] in ('w4', 'w5', 'w6', 'w7', 'w8', 'w9', 'w10', 'w11')
+wave11 = len(sys.argv) > 3 and sys.argv[3] == 'w11'
 wave10 = len(sys.argv) > 3 and sys.argv[3] == 'w10'
 wave9 = len(sys.argv) > 3 and sys.argv[3] == 'w9'
 wave8 = len(sys.argv) > 3 and sys.argv[3] == 'w8'
@@ -29,6 +30,8 @@ if wave9:
     extra += " For this round: m1 must break one side of a MIRRORED PAIR that has to stay symmetric - encode vs decode, save vs load, add vs remove, join vs leave, create vs delete, open vs close, reserve vs release, the 2-byte vs the 4-byte form of an integer, the request path vs the transfer-connection path of the same operation - so that each side still looks right on its own and only a round trip, or the second half of the pair arriving later or from another user, shows the damage. m2 must depend on the protocol STATE in which a request arrives or on REPETITION: the same request sent twice, a request sent before the session finished logging in / agreed or after its teardown began, a transfer connection presenting a reference number of a different kind of transfer or one already used, an id or name being reused right after it was freed, counters or sizes that wrap, truncate or go negative in integer arithmetic. Both must still genuinely break the property as stated, through inputs the property quantifies over."
 if wave10:
     extra += " For this round: m1 must only show at SCALE or after ACCUMULATION - collections with many elements (255/256/257 or 65535/65536 entries, users, files in one folder, articles in one category, members of a chat, path depth, pending transfers), totals summed over many items, or state that builds up over many operations of a long-lived server (tables that are never pruned, counters, ids, file sizes growing past a limit) - while small, fresh instances behave perfectly. m2 must concern a MULTI-ELEMENT operation (a batched request with several sub-entries, a folder transfer with several items, a request with several fields of the same kind, a notification fanned out to several recipients, a start-up load of several files) in which one element is unusual, fails or is refused: what then happens to the elements before and after it - skipped, applied twice, applied to the wrong target, left half-done - must break the property, while the all-good and the single-element cases still work. Both must still genuinely break the property as stated, through inputs the property quantifies over."
+if wave11:
+    extra += " For this round: m1 must depend on the SHAPE of a request as different client programs send it - optional fields absent, present but empty, or present twice; fields in an unusual order; unknown extra fields; zero-length or one-byte values where two or four bytes are usual; an old-style client (version below 151, no agreement step) versus a new one - so that the requests of the most common client still work and only another legal shape breaks the property. m2 must need TWO DIFFERENT KINDS of operation on the same object to overlap or to follow each other closely, from different users or connections: rename or move or delete while a download or upload of that file is in progress or pending; edit or delete of an account while it is logging in or transferring; post or delete while a reload or a listing runs; a chat invite or leave racing a disconnect; a ban racing a login. Each operation alone, and two operations of the same kind, must still behave. Both must still genuinely break the property as stated, through inputs the property quantifies over."
 if wave5:
     extra += " The THREE changes must be of three different kinds: m1 must need two sessions (or a session and a transfer connection) whose operations interleave or follow each other in a particular order; m2 must only show after a restart, reload or crash, or through files left behind on disk; m3 must only show for particular input encodings, lengths or boundary values. At least one of the three must be in a file that is NOT among the code anchors listed above."
 p = next(json.loads(l) for l in open('/verif/properties.jsonl') if json.loads(l)['id'] == pid)
